@@ -270,6 +270,7 @@ func runOracle(c *proto.Corpus, order, ids string, seed uint64, free bool) {
 	if simrt.Instrumented && !free {
 		out.SiteBits = simrt.SiteBits()
 	}
+	out.Unmanaged = simrt.Unmanaged()
 	writeJSON(outPath, out)
 }
 
